@@ -120,6 +120,14 @@ Section C19_fmt.
                           = Some (cell_value fj (apply_mapping fj fd fo mp r))).
   Proof. exact (csv_columns_follow_header fj fd fo). Qed.
 
+  (* the value of a cell is the SPECIFIED one: a path is a dot-separated list of object keys taken
+     literally ('/' and '~' are key characters, a numeric segment is a key, never an array index),
+     Sum / Optional as documented; the cell fails exactly when the specification says so *)
+  Theorem c19_csv_cell_meets_spec : forall m r,
+      to_opt (apply_mapping fj fd fo m r) = spec_value fo m r
+      /\ cell_value fj (apply_mapping fj fd fo m r) = spec_cell fj fo m r.
+  Proof. intros m r. split; [exact (apply_mapping_meets_spec fj fd fo m r)|exact (cell_value_meets_spec fj fd fo m r)]. Qed.
+
   (* the header goes into a new file and never into an existing one *)
   Theorem c19_csv_header_once : forall f rate c,
       (exists n, build_file f rate None = Ok (header_of f, n) \/ exists e, build_file f rate None = Err e)
@@ -281,6 +289,15 @@ Proof.
   split; [intros f; split; [discriminate|reflexivity]|]. split; [intros f; reflexivity|].
   split; [vm_compute; reflexivity|]. split; vm_compute; reflexivity.
 Qed.
+(* keys that look like JSON-pointer syntax are plain keys; a numeric segment under an array fails *)
+Example c19_nonvacuous_literal_keys :
+  let r := JObj [("request", JObj [("trip/id", JStr "T-0"); ("~0", JStr "tilde0"); ("~", JStr "tilde");
+                                   ("a", JObj [("b", JStr "nested")]); ("a/b", JStr "flat");
+                                   ("list", JArr [JStr "first"]); ("0", JInt 7)])] in
+  map (fun p => spec_cell ex_fj ex_fo (CPath p) r)
+      ["request.trip/id"; "request.~0"; "request.a/b"; "request.a.b"; "request.list.0"; "request.0"]
+  = ["T-0"; "tilde0"; "flat"; "nested"; ""; "7"].
+Proof. vm_compute. reflexivity. Qed.
 (* the D-CSVERR witness: the search error survives, the mapping failures go to csv_error *)
 Example c19_nonvacuous_error_kept :
   exists row r', format_response ex_fj ex_fj ex_fo (FCsv ex_map true) ex_err = Ok (row, r')
@@ -306,6 +323,7 @@ Print Assumptions c19_acceptor_sound.
 Print Assumptions c19_accepted_trace_file.
 Print Assumptions c19_response_error_not_clobbered.
 Print Assumptions c19_csv_columns_follow_header.
+Print Assumptions c19_csv_cell_meets_spec.
 Print Assumptions c19_csv_header_once.
 Print Assumptions c19_csv_row_field_count.
 Print Assumptions c19_csv_end_to_end.
@@ -319,5 +337,6 @@ Print Assumptions c19_nonvacuous_accepts.
 Print Assumptions c19_nonvacuous_rejects.
 Print Assumptions c19_nonvacuous_partial.
 Print Assumptions c19_nonvacuous_csv.
+Print Assumptions c19_nonvacuous_literal_keys.
 Print Assumptions c19_nonvacuous_error_kept.
 Print Assumptions c19_nonvacuous_blank_row.
